@@ -31,8 +31,10 @@ type fakeModify struct {
 	in   chan *spb.ModifyRequest
 	out  chan *spb.ModifyResponse
 	abrt chan struct{}
-	// failSend makes every later Send fail (the transport to the client is gone)
-	failSend atomic.Bool
+	// failSend makes every later Send fail (the transport to the client is gone);
+	// sendBudget >= 0: that many further Sends succeed, then they fail
+	failSend   atomic.Bool
+	sendBudget atomic.Int64
 }
 
 func (f *fakeModify) Context() context.Context     { return f.ctx }
@@ -42,6 +44,13 @@ func (f *fakeModify) SetTrailer(metadata.MD)       {}
 func (f *fakeModify) Send(m *spb.ModifyResponse) error {
 	if f.failSend.Load() {
 		return status.Error(codes.Unavailable, "transport is closing")
+	}
+	if b := f.sendBudget.Load(); b >= 0 {
+		if b == 0 {
+			f.failSend.Store(true)
+			return status.Error(codes.Unavailable, "transport is closing")
+		}
+		f.sendBudget.Store(b - 1)
 	}
 	f.out <- m
 	return nil
@@ -98,6 +107,7 @@ func (d *Server) Connect() (*Sess, error) {
 		before[v.ID] = true
 	}
 	f := &fakeModify{ctx: context.Background(), in: make(chan *spb.ModifyRequest), out: make(chan *spb.ModifyResponse, 1<<16), abrt: make(chan struct{})}
+	f.sendBudget.Store(-1)
 	s := &Sess{d: d, f: f, done: make(chan error, 1)}
 	go func() { s.done <- d.S.Modify(f) }()
 	deadline := time.Now().Add(Watchdog)
@@ -271,4 +281,21 @@ func (s *Sess) SendFail() error {
 	}
 	s.closed = true
 	return s.wait()
+}
+
+// SendFailDuring sends m (a request of several operations) on a transport that delivers only the first
+// `after` responses and then fails: the client goes away while its request is being answered.
+func (s *Sess) SendFailDuring(m *spb.ModifyRequest, after int) ([]*spb.ModifyResponse, error) {
+	if !s.Live() {
+		return nil, nil
+	}
+	s.f.sendBudget.Store(int64(after))
+	if ok, err := s.push(m); err != nil || !ok {
+		return nil, err
+	}
+	s.closed = true
+	if err := s.wait(); err != nil {
+		return nil, err
+	}
+	return s.drain(), nil
 }
